@@ -44,6 +44,7 @@ type Prop[C any] struct {
 	ID       string // property id, e.g. "C04"
 	Quick    int    // cases in the quick tier
 	Thor     int    // cases in the thorough tier (all shards together)
+	OneShard bool   // the thorough tier runs this test in shard 0 only (cases that take many minutes each)
 	Rule     string // the non-triviality rule, in words (goes to the evidence file)
 	Gen      func(t *rapid.T) C
 	Run      func(t *testing.T, c C) Outcome
@@ -293,6 +294,12 @@ func Check[C any](t *testing.T, p Prop[C]) {
 	n := p.Quick
 	if Thorough() {
 		n = p.Thor * ThorScale
+	}
+	if p.OneShard && Shards > 1 {
+		if Shard != 0 {
+			return
+		}
+		n *= Shards
 	}
 	n = int(float64(n)*Scale) / Shards
 	if n < 1 {
